@@ -78,6 +78,8 @@ func pump[E any](ch <-chan E, stop <-chan struct{}, conv func(E) srec, out func(
 			select {
 			case e, ok := <-ch:
 				if !ok {
+					// the store ended the watch by closing the consumer's channel
+					out(srec{typ: "CLOSED"})
 					return
 				}
 				out(conv(e))
@@ -920,6 +922,10 @@ func storeBubble(plan *Plan, res *Result) []porcupine.Operation {
 					go func() {
 						var err error
 						w.stopFn, err = c.api.watch(wctx, key, hint, op.Replay, func(r srec) {
+							if r.typ == "CLOSED" {
+								w.closed = true
+								return
+							}
 							if r.typ == "DELETED" {
 								return
 							}
@@ -1059,6 +1065,17 @@ func storeBubble(plan *Plan, res *Result) []porcupine.Operation {
 			synctest.Wait()
 			for _, w := range allWatches {
 				if w.stopped || w.cancelled || w.stopFn == nil {
+					continue
+				}
+				if w.closed {
+					// The store ended this watch itself (it closed the consumer's channel): the consumer has been told, nothing
+					// is owed to it any more. Legitimate after a store error during the asynchronous replay (the v3
+					// transaction store gives up on the first failed call); without any injected store fault it is not.
+					if k.Stats["fault/op-unavailable"]+k.Stats["fault/op-ack-lost"] > 0 {
+						k.Probe("c15-watch-ended-by-store-after-fault")
+					} else {
+						report("watch", "ended-by-store-without-fault", fmt.Sprintf("watcher c%d/w%d (key %q): the store closed the channel although the watch was not cancelled and no store call failed", w.client, w.ord, w.key))
+					}
 					continue
 				}
 				if sp.TwoInstances && sp.Kind == "v3tx" {
